@@ -683,20 +683,25 @@ pub fn gen_c20(ctx: &mut Ctx) {
     for _ in 0..(150 * ctx.tier_scale) {
         ctx.case("c20.malformed");
         // b and the registers length varied independently, plus omissions / duplicates / unknown / wrong types
-        let b = *ctx.rng.pick(&[0u64, 1, 3, 4, 5, 6, 7, 8, 18, 19, 20, 63, 64, 99, u64::MAX]);
-        let len = match ctx.rng.below(8) {
-            0 => 0,
-            1 => 1,
-            2 => 15,
-            3 => 16,
-            4 => 17,
-            5 => 32,
-            6 => if b <= 10 { 1u64 << b } else { 64 },
-            _ => ctx.rng.below(300),
+        let consistent = ctx.rng.chance(1, 3);
+        let b = if consistent { ctx.rng.range(4, 9) } else { *ctx.rng.pick(&[0u64, 1, 3, 4, 5, 6, 7, 8, 18, 19, 20, 63, 64, 99, u64::MAX]) };
+        let len = if consistent {
+            1u64 << b
+        } else {
+            match ctx.rng.below(8) {
+                0 => 0,
+                1 => 1,
+                2 => 15,
+                3 => 16,
+                4 => 17,
+                5 => 32,
+                6 => if b <= 10 { 1u64 << b } else { 64 },
+                _ => ctx.rng.below(300),
+            }
         };
         let regs: Vec<String> = (0..len).map(|_| (ctx.rng.below(if ctx.rng.clone().chance(1, 20) { 300 } else { 70 })).to_string()).collect();
         let mut fields = vec![format!("R:{}", regs.join(",")), format!("B:{}", b), "H:1,0,64,0".to_string()];
-        match ctx.rng.below(12) {
+        match ctx.rng.below(if consistent { 24 } else { 12 }) {
             0 => { fields.remove(ctx.rng.below(3) as usize); }
             1 => { let i = ctx.rng.below(3) as usize; let f = fields[i].clone(); fields.push(f); }
             2 => fields.push("Xextra:1".into()),
@@ -704,6 +709,8 @@ pub fn gen_c20(ctx: &mut Ctx) {
             4 => fields[0] = "Rs:zz".into(),
             5 => fields[2] = "Hn".into(),
             6 => fields.swap(0, 2),
+            7 => fields.swap(0, 1),
+            8 => fields.swap(1, 2),
             _ => {}
         }
         let a = ctx.op(format!("hll.deser 1 {}", fields.join(" ")));
